@@ -101,6 +101,58 @@ theorem GePrecomp.select_src_eq_model (pos : Nat) (b : Int) : GePrecomp.select_s
     have h2 : b < -8 ∨ b > 8 := by omega
     simp only [GePrecomp.select_src, GePrecomp.select, h1, h2, if_false, if_true]
 
+/-! ## (c) ge.rs — the loops -/
+
+section geloops
+open Cx.Impl.Scalar64 (ckI8)
+
+/-- `Ge::scalarmult_base`: the nibbles, the signed recoding (carry loop over `es[0..63]`, the last carry into `es[63]`), the comb
+    loop over the odd digits, four doublings, the comb loop over the even digits — for every scalar -/
+theorem Ge.scalarmult_base_src_eq_model (a : Scalar64.Scalar) : Ge.scalarmult_base_src a = Ge.scalarmult_base a := by
+  unfold Ge.scalarmult_base_src Ge.scalarmult_base recode
+  generalize hn : (Scalar64.nibbles a).toList = nib
+  have hl : nib.length = 64 := by rw [← hn]; simp
+  simp only [Ge.scalarmult_base_loop1, Ge.scalarmult_base_loop2, Ge.scalarmult_base_loop3, bind_assoc]
+  cases hr : recodeLoop (nib.take 63) 0 with
+  | none => rw [none_bind', none_bind']
+  | some p =>
+    obtain ⟨lo, carry⟩ := p
+    have hlo : lo.length = 63 := by
+      rw [recodeLoop_length _ _ _ _ hr]; simp only [List.length_take]; omega
+    have h63 : nib[63]? = some (nib[63]'(by omega)) := List.getElem?_eq_getElem (by omega)
+    have hd : nib.drop 63 = [nib[63]'(by omega)] := by
+      rw [List.drop_eq_getElem_cons (by omega), List.drop_of_length_le (by omega)]
+    have e1 : (lo ++ nib.drop 63)[63]? = some (nib[63]'(by omega)) := by
+      rw [hd, List.getElem?_append_right (by omega), hlo]; rfl
+    simp only [some_bind', e1, h63]
+    cases Scalar64.ckI8 (nib[63] + carry) with
+    | none => rw [none_bind', none_bind']
+    | some top =>
+      have e2 : (lo ++ nib.drop 63).set 63 top = lo ++ [top] := by
+        rw [hd, List.set_append_right _ _ (by omega), hlo]; rfl
+      simp only [some_bind', e2, Option.pure_def]
+
+/-- `GePartial::double_scalarmult_vartime`: both slide recodings, the table of odd multiples, the search for the top non-zero
+    index from 255 down, the window loop down to index 0 (the fuel `i + 1` of both `loop`s is adequate: the model has none) -/
+theorem GePartial.double_scalarmult_vartime_src_eq_model (a : Scalar64.Scalar) (A : Ge) (b : Scalar64.Scalar) :
+    GePartial.double_scalarmult_vartime_src a A b = GePartial.double_scalarmult_vartime a A b := by
+  unfold GePartial.double_scalarmult_vartime_src GePartial.double_scalarmult_vartime nextOdd
+  generalize Scalar64.slide a = sa
+  generalize Scalar64.slide b = sb
+  cases sa with
+  | none => rfl
+  | some va =>
+    cases sb with
+    | none => rfl
+    | some vb =>
+      have hl := GePartial.dsm_loop2 va.toList vb.toList
+      simp only [Option.map_some, some_bind', bind_assoc]
+      repeat (refine bind_congr fun _ => ?_)
+      rename_i a1 _ a2 _ _ a3 _ _ a5 _ _ a7 _ _ a9 _ _ a11 _ _ a13 _ _ a15
+      exact hl [a1, a3, a5, a7, a9, a11, a13, a15] GePartial.ZERO (by simp) (by simp) 255 (by omega)
+
+end geloops
+
 /-! ## (e) ed25519.rs — key generation, signing, verification (order of refusals, all-zero key test, hash composition), exchange -/
 
 theorem Ed25519.clamp_scalar_src_eq_model (s : Bytes) : Ed25519.clamp_scalar_src s = Ed25519.clamp_scalar s := by
@@ -216,5 +268,113 @@ theorem Ed25519.exchange_src_eq_model (pk sk : Bytes) : Ed25519.exchange_src pk 
         cases Ed25519.edwards_to_montgomery_x y <;> rfl
     · have : Fe64.fromBytes pk = none := by unfold Fe64.fromBytes; rw [dif_neg h1]
       rw [this]; rfl
+
+/-! ## (d) curve25519/mod.rs, x25519.rs — clamping, the 255-step ladder with masked swaps, the final inversion -/
+
+section ladder
+open Cx.Impl.X25519 (ladderLoop Z5 A24P1 A24P1_BASE NINE clampE ladderMain)
+
+/-- `curve25519(n, p)` for all byte strings (`curve25519M` = the model `X25519.curve25519` with the length facts of the
+    `[u8; 32]` parameter types supplied; another length is not expressible in Rust: `none`) -/
+theorem curve25519_src_eq_model (n p : Bytes) : curve25519_src n p = curve25519M n p := by
+  unfold curve25519_src curve25519M
+  by_cases h : n.length = 32 ∧ p.length = 32
+  · rw [if_pos h, dif_pos h]
+    have hy : fromBytes p = some (from_bytes p h.2) := by simp only [fromBytes, dif_pos h.2]
+    have he : (clampE n).length = 32 := by rw [X25519.clampE_length]; exact h.1
+    unfold X25519.curve25519 ladderMain
+    rw [hy, some_bind']
+    show (curve25519_loop1_src (clampE n) (from_bytes p h.2) 255 Fe.ONE Fe.ZERO (from_bytes p h.2) Fe.ONE (CT.u64_ct_zero 1) >>= _) = _
+    rw [curve25519_loop1 (clampE n) he (from_bytes p h.2) 255 (by omega)]
+    dsimp only
+    generalize ladderLoop (clampE n) _ A24P1 (Z5.mulX1 (from_bytes p h.2)) 255 _
+      ⟨Fe.ONE, Fe.ZERO, from_bytes p h.2, Fe.ONE, CT.u64_ct_zero 1⟩ = L
+    cases L with
+    | none => rfl
+    | some s =>
+      simp only [Option.map_some, some_bind', Ladder.toTuple]
+  · rw [if_neg h, dif_neg h]
+
+theorem curve25519_base_src_eq_model (n : Bytes) : curve25519_base_src n = curve25519_baseM n := by
+  unfold curve25519_base_src curve25519_baseM
+  by_cases h : n.length = 32
+  · rw [if_pos h, dif_pos h]
+    have hy : fromBytes X25519.BASE = some (from_bytes X25519.BASE X25519.BASE_length) := by
+      simp only [fromBytes, dif_pos X25519.BASE_length]
+    have he : (clampE n).length = 32 := by rw [X25519.clampE_length]; exact h
+    unfold X25519.curve25519_base ladderMain
+    rw [hy, some_bind']
+    show (curve25519_base_loop1_src (clampE n) 255 Fe.ONE Fe.ZERO (from_bytes X25519.BASE X25519.BASE_length) Fe.ONE
+      (CT.u64_ct_zero 1) >>= _) = _
+    rw [curve25519_base_loop1 (clampE n) he 255 (by omega)]
+    dsimp only
+    generalize ladderLoop (clampE n) _ A24P1_BASE (Z5.small NINE) 255 _
+      ⟨Fe.ONE, Fe.ZERO, from_bytes X25519.BASE X25519.BASE_length, Fe.ONE, CT.u64_ct_zero 1⟩ = L
+    cases L with
+    | none => rfl
+    | some s =>
+      simp only [Option.map_some, some_bind', Ladder.toTuple]
+  · rw [if_neg h, dif_neg h]
+
+/-- `x25519::dh` / `x25519::base`: the newtypes over `[u8; 32]` are erased -/
+theorem X25519.dh_src_eq_model (n p : Bytes) :
+    X25519.dh_src n p = if h : n.length = 32 ∧ p.length = 32 then Impl.X25519.dh n p h.1 h.2 else none := by
+  unfold X25519.dh_src curve25519M Impl.X25519.dh
+  by_cases h : n.length = 32 ∧ p.length = 32
+  · rw [if_pos h]
+  · rw [if_neg h, dif_neg h]
+theorem X25519.base_src_eq_model (x : Bytes) :
+    X25519.base_src x = if h : x.length = 32 then Impl.X25519.base x h else none := by
+  unfold X25519.base_src curve25519_baseM Impl.X25519.base
+  by_cases h : x.length = 32
+  · rw [if_pos h]
+  · rw [if_neg h, dif_neg h]
+
+end ladder
+
+/-! ## (a) Fe — the compositions above the limb kernels (fe/mod.rs, fe/fe64/mod.rs) -/
+
+theorem Fe.pow25523_src_eq_model (z : Fe) : Fe.pow25523_src z = Fe64.pow25523 z := by
+  unfold Fe.pow25523_src Fe64.pow25523 chain250
+  simp only [bind_assoc, pure_bind]
+theorem Fe.invert_src_eq_model (z : Fe) : Fe.invert_src z = Fe64.invert z := by
+  unfold Fe.invert_src Fe64.invert chain250
+  simp only [bind_assoc, pure_bind]
+theorem Fe.square_repeatdly_src_eq_model (f : Fe) (n : Nat) : Fe.square_repeatdly_src f n = square_repeatdly f n := Fe.square_repeatdly_loop1 n f
+theorem Fe.square_and_double_src_eq_model (f : Fe) : Fe.square_and_double_src f = square_and_double f := by rfl
+theorem Fe.is_nonzero_src_eq_model (f : Fe) : Fe.is_nonzero_src f = is_nonzero f := by rfl
+theorem Fe.is_negative_src_eq_model (f : Fe) : Fe.is_negative_src f = is_negative f := by
+  unfold Fe.is_negative_src is_negative
+  refine bind_congr fun w => ?_
+  cases w <;> rfl
+theorem Fe.maybe_swap_with_src_eq_model (f g : Fe) (c : CT.Choice) : Fe.maybe_swap_with_src f g c = maybe_swap_with f g c := by rfl
+theorem Fe.maybe_set_src_eq_model (f g : Fe) (c : CT.Choice) : Fe.maybe_set_src f g c = Fe64.maybe_set f g c := by rfl
+theorem Fe.ct_eq_src_eq_model (f g : Fe) : Fe.ct_eq_src f g = Fe64.ct_eq f g := by rfl
+theorem Fe.eq_src_eq_model (f g : Fe) : Fe.eq_src f g = Fe64.eq f g := by rfl
+theorem Fe.ct_ne_src_eq_model (f g : Fe) : Fe.ct_ne_src f g = (Fe64.ct_eq f g).map CT.Choice.negate := by
+  unfold Fe.ct_ne_src; cases Fe64.ct_eq f g <;> rfl
+/-! ## (b) Scalar -/
+
+theorem Scalar.muladd_src_eq_model (a b c : Scalar64.Scalar) : Scalar.muladd_src a b c = Scalar64.muladd a b c := by
+  unfold Scalar.muladd_src Scalar64.muladd
+  refine bind_congr fun m => ?_
+  generalize Scalar64.add m c = o
+  cases o <;> rfl
+theorem Scalar.from_bytes_canonical_src_eq_model (b : Bytes) : Scalar.from_bytes_canonical_src b = Scalar64.fromBytesCanonical b := by
+  unfold Scalar.from_bytes_canonical_src Scalar64.fromBytesCanonical Scalar64.fromBytes Scalar64.toArr
+  by_cases h : b.length = 32
+  · rw [if_pos h, dif_pos h]
+    generalize (⟨b.toArray, by simp [h]⟩ : Vector UInt8 32) = v
+    rw [Option.map_some, some_bind', Option.bind_some]
+    unfold Scalar64.from_bytes_canonical
+    dsimp only
+  · rw [if_neg h, dif_neg h]
+    rfl
+
+/-- `Scalar::slide`: the three nested loops (window growth, borrow propagation with `break`) on `[i8; 256]`, every `i8` operation
+    checked — for every scalar; the result is the model's `Vector` as a list -/
+theorem Scalar.slide_src_eq_model (s : Scalar64.Scalar) : Scalar.slide_src s = (Scalar64.slide s).map Vector.toList := by
+  unfold Scalar.slide_src Scalar64.slide
+  exact Scalar.slide_loop1 256 0 _ (by omega)
 
 end Cx.Props.C15.GlueTieCurve
